@@ -12,6 +12,19 @@ KINDS = {
     "crlf": "\r\n",
     "ff": " \f ",
     "blank-lines": "\n\n\n",
+    # white space beyond blank / tab / line feed: everything str.isspace() and the regex class \s call white space (what the
+    # language's lexer ignores between tokens today), e.g. a no-break space pasted from a document
+    "cr-only": "\r",
+    "vt-ff": "\x0b\x0c",
+    "fs-gs-rs-us": "\x1c\x1d\x1e\x1f",
+    "nel": "\x85",
+    "nbsp": "\u00a0",
+    "nbsp-run": " \u00a0\u00a0 ",
+    "em-thin-spaces": "\u2003\u2009\u200a",
+    "ls-ps": "\u2028\u2029",
+    "narrow-nbsp-mmsp": "\u202f\u205f",
+    "ideographic-space": "\u3000",
+    "ogham-space": "\u1680",
     "line-comment": " // a comment\n",
     "line-comment-crlf": " // a comment\r\n",
     "line-comment-hostile": " // \"quoted\" 'single' return weighted if /* not */ a block } { \n",
